@@ -133,6 +133,8 @@ pub fn extras() -> Vec<&'static str> {
         // auxiliary energy as the only electricity component; a step with very little on-site production next to a large one
         "1,CONSUMO,CAL,GASNATURAL,190,150,100\n1,AUX,20,15,10",
         "CONSUMO,ILU,ELECTRICIDAD,5000,5000,5000\nPRODUCCION,EL_INSITU,20000,15,0",
+        // on-site electricity declared under a negative (fictitious / reference) system id, next to cogeneration
+        "0,CONSUMO,ILU,ELECTRICIDAD,10,10,10\n-1,PRODUCCION,EL_INSITU,4,12,0\n2,PRODUCCION,EL_COGEN,8,8,8\n2,CONSUMO,COGEN,GASNATURAL,20,20,20",
         // a reserve system: two services, outputs and auxiliaries declared and all zero
         "1,CONSUMO,CAL,GASNATURAL,0,0,0\n1,CONSUMO,ACS,GASNATURAL,0,0,0\n1,SALIDA,CAL,0,0,0\n1,SALIDA,ACS,0,0,0\n1,AUX,0,0,0\n2,CONSUMO,ILU,ELECTRICIDAD,33,32,31\n2,CONSUMO,CAL,GASNATURAL,50,40,30",
         // a pump group declared only through its output and its auxiliaries (no CONSUMO line), PV that matches the auxiliaries step by step
